@@ -1,5 +1,12 @@
 # per-property configuration of the check driver
 PROPS = {
+    "C10": {
+        "level_text": "Verify of the type-1 and type-5 issuers is executed symbolically over the ideal VOPRF model: for every token with field lengths in the stated ranges the solver decides accept <=> authenticator == F(k, type||nonce||context||key_id) (the oracle input is concatenated independently by the harness), and that any changed field / authenticator / key is rejected (F injective).",
+        "level_note": "Relative to the VOPRF contract (FullEvaluate is a deterministic injective function of key and exact input bytes); circl itself is not verified.",
+        "explanation": "exactness and binding harnesses for both issuers",
+        "assumptions": ["VOPRF FullEvaluate = injective uninterpreted function of (exact input bytes, key)"],
+        "outside": ["field lengths outside the stated ranges", "that circl implements RFC 9497"],
+    },
     "C03": {
         "level_text": "Each peer-facing decoder / protocol step is executed symbolically on a byte string of symbolic length and content; every Go runtime check (index, slice, nil, make, type assertion, explicit panic) is a solver query on every path, loops carry unwinding checks, and every allocation whose size depends on the input is compared with 64*len+4096.",
         "level_note": "Bounded by the input lengths in evidence.bounds; cryptographic callees are contract stubs (result and error both nondeterministic); panics and allocation inside dependencies are outside the claim.",
